@@ -56,7 +56,13 @@ End instr_ind'.
 
 (* ---- boolean equalities ---- *)
 Lemma cty_eqb_eq a b : cty_eqb a b = true <-> a = b.
-Proof. destruct a, b; simpl; split; intros; try reflexivity; discriminate. Qed.
+Proof.
+  revert b. induction a; intros []; simpl; split; intros H; try reflexivity; try discriminate.
+  - f_equal. apply IHa. assumption.
+  - injection H as ->. apply IHa. reflexivity.
+  - apply andb_prop in H. destruct H as [H1 H2]. f_equal; [apply IHa1 | apply IHa2]; assumption.
+  - injection H as -> ->. apply andb_true_intro. split; [apply IHa1 | apply IHa2]; reflexivity.
+Qed.
 
 Lemma ty_eqb_eq a b : ty_eqb a b = true <-> a = b.
 Proof.
@@ -73,11 +79,17 @@ Qed.
 
 Lemma cval_eqb_eq a b : cval_eqb a b = true <-> a = b.
 Proof.
-  destruct a, b; simpl; split; intros H; try discriminate.
+  revert b. induction a; intros []; simpl; split; intros H; try discriminate.
   - f_equal. lia.
   - injection H as ->. lia.
   - f_equal. apply bytes_eqb_spec. assumption.
   - injection H as ->. apply bytes_eqb_spec. reflexivity.
+  - f_equal. apply cty_eqb_eq. assumption.
+  - injection H as ->. apply cty_eqb_eq. reflexivity.
+  - f_equal. apply IHa. assumption.
+  - injection H as ->. apply IHa. reflexivity.
+  - apply andb_prop in H. destruct H as [H1 H2]. f_equal; [apply IHa1 | apply IHa2]; assumption.
+  - injection H as -> ->. apply andb_true_intro. split; [apply IHa1 | apply IHa2]; reflexivity.
 Qed.
 
 Lemma key_eqb_eq a b : key_eqb a b = true <-> a = b.
@@ -95,7 +107,13 @@ Lemma pos_list t l : tickets_pos (VList t l) = stack_pos l.
 Proof. induction l as [|x r IH]; [reflexivity|]. cbn [tickets_pos stack_pos forallb] in *. rewrite IH. reflexivity. Qed.
 
 (* ---- well-typed values: list elements have the declared type ---- *)
-Definition cval_wf (c : cval) : bool := match c with CN z => 0 <=? z | CS _ => true end.
+Fixpoint cval_wf (c : cval) : bool :=
+  match c with
+  | CN z => 0 <=? z
+  | CSome x => cval_wf x
+  | CPairV a b => cval_wf a && cval_wf b
+  | _ => true
+  end.
 
 Fixpoint wt (v : val) : bool :=
   match v with
@@ -257,10 +275,35 @@ Ltac norm :=
   cbn [stk minted self forallb wt cval_wf tickets_pos stack_mass mass ledger_sum type_of fst snd] in *.
 
 Lemma cval_ok c : cval_wf c = true -> wt (val_of_cval c) = true /\ tickets_pos (val_of_cval c) = true.
-Proof. destruct c; intros H; repeat split; exact H. Qed.
+Proof.
+  induction c as [z|x|t|x IH|a IHa b IHb]; cbn [cval_wf val_of_cval wt tickets_pos]; intros H; try (split; [exact H || reflexivity | reflexivity]).
+  - apply IH. exact H.
+  - apply andb_prop in H. destruct H as [H1 H2]. destruct (IHa H1) as [A1 A2]. destruct (IHb H2) as [B1 B2].
+    rewrite A1, A2, B1, B2. split; reflexivity.
+Qed.
 
 Lemma cval_mass k c : mass k (val_of_cval c) = 0.
-Proof. destruct c; reflexivity. Qed.
+Proof.
+  induction c as [z|x|t|x IH|a IHa b IHb]; cbn [val_of_cval mass]; try reflexivity.
+  - exact IH.
+  - rewrite IHa, IHb. reflexivity.
+Qed.
+
+(* a value accepted as ticket contents holds no ticket, and its contents are well-formed when it is *)
+Lemma content_of_facts k v : forall c, content_of v = Some c ->
+  mass k v = 0 /\ (wt v = true -> cval_wf c = true).
+Proof.
+  induction v as [z|x|a|t0 c0 a0|a b IHa IHb|x IH|t|t l IH] using val_ind'; intros c H; cbn [content_of] in H; try discriminate.
+  - injection H as <-. split; [reflexivity | intros W; exact W].
+  - injection H as <-. split; [reflexivity | reflexivity].
+  - destruct (content_of a) as [ca|] eqn:Ea; [|discriminate]. destruct (content_of b) as [cb|] eqn:Eb; [|discriminate].
+    injection H as <-. destruct (IHa ca eq_refl) as [A1 A2]. destruct (IHb cb eq_refl) as [B1 B2].
+    cbn [mass wt cval_wf]. rewrite A1, B1. split; [reflexivity|]. intros W. apply andb_prop in W. destruct W as [W1 W2].
+    rewrite (A2 W1), (B2 W2). reflexivity.
+  - destruct (content_of x) as [cx|] eqn:Ex; [|discriminate]. injection H as <-.
+    destruct (IH cx eq_refl) as [A1 A2]. cbn [mass wt cval_wf]. split; assumption.
+  - destruct (cty_of_ty t) as [ct|]; [|discriminate]. injection H as <-. split; reflexivity.
+Qed.
 
 Ltac split_ands :=
   repeat match goal with
@@ -292,9 +335,12 @@ Ltac key_cases :=
 (* the four ticket instructions, by hand *)
 Lemma TICKET_preserves : preserves (step TICKET).
 Proof.
-  intros [sf s m] st' Hok H. cbn [step stk] in H. unfold content_of in H.
-  destruct_matches H; injection H as <-; norm; split_ands.
-  all: split; [solve_bool | intros k; nonneg_facts k; norm; key_cases; lia].
+  intros [sf s m] st' Hok H. cbn [step stk] in H.
+  destruct s as [|item s]; [discriminate|]. destruct s as [|am s]; [discriminate|]. destruct am; try discriminate.
+  destruct (content_of item) as [c|] eqn:Ec; [|discriminate].
+  assert (Hwc : wt item = true -> cval_wf c = true) by (apply (content_of_facts (sf, c) item c Ec)).
+  destruct (z >? 0) eqn:Ez; injection H as <-; norm; split_ands.
+  all: split; [norm; solve_bool; auto | intros k; destruct (content_of_facts k item c Ec) as [Hm _]; nonneg_facts k; norm; key_cases; lia].
 Qed.
 
 Lemma READ_TICKET_preserves : preserves (step READ_TICKET).
